@@ -48,7 +48,7 @@ def errMsg : FErr → String
   | .dataUnsupported => "MODEL:unsupported-definition"
   | .writer e => ConvD.werrMsg e
   | .codec .atEmpty => "exc:out_of_range"
-  | .codec .stackEmpty => "UB:stack-top-on-empty"
+  | .codec .stackEmpty => "err:loopCmdWithoutStart"
   | .indexRange => "err:indexRange"
   | .headerWrap => "UB:header-wrap"
   | .seqTooLarge => "err:seqTooLarge"
